@@ -51,6 +51,15 @@ def render(case):
             out.append(("read", f"export function f({decl}, float3 v) -> float\n{{\n  return v[{expr}];\n}}\n"))
         else:
             out.append(("read", f"export function f({decl}, float3x3 m) -> float3\n{{\n  return m[{expr}];\n}}\n"))
+    elif k == "ibin":
+        decl, expr = f"{case['l']} p, {case['r']} q", f"p {case['op']} q"
+        if case["on"] == "arr":
+            out.append(("read", f"export function f({decl}) -> int\n{{\n  int[3] t;\n  return t[{expr}];\n}}\n"))
+            out.append(("write", f"export function f({decl}) -> int\n{{\n  int[3] t;\n  t[{expr}] = 4;\n  return 0;\n}}\n"))
+        elif case["on"] == "vec":
+            out.append(("read", f"export function f({decl}, float3 v) -> float\n{{\n  return v[{expr}];\n}}\n"))
+        else:
+            out.append(("read", f"export function f({decl}, float3x3 m) -> float3\n{{\n  return m[{expr}];\n}}\n"))
     elif k == "mask":
         n, m = case["size"], "".join(case["mask"])
         rt = "float" if len(m) == 1 else f"float{len(m)}"
@@ -120,6 +129,8 @@ def detail(case):
         return "mat:" + ("+".join(bad) if bad else "in") + (":neg" if min(case["row"], case["col"]) < 0 else "")
     if k == "ityp":
         return f"ityp:{case['it']}:{case['on']}"
+    if k == "ibin":
+        return f"ibin:{case['l']}{case['op']}{case['r']}:{case['on']}"
     m = case["mask"]
     fam = {("x" in "xyzw" and l in "xyzw") and "p" or (l in "rgba" and "c" or "f") for l in m}
     why = "foreign" if "f" in fam else "mixed" if len(fam) > 1 else ("ok" if case["ok"] else "component-beyond-size")
